@@ -274,6 +274,17 @@ where
             );
             variables.s.scalarop_from(|z| -z, &variables.z);
         }
+        #[cfg(clarabel_verif)]
+        if crate::verif_hooks::trace::armed() {
+            use crate::verif_hooks::trace::{fv, observe, Event};
+            observe(Event::InitPoint {
+                x: fv(&variables.x),
+                s: fv(&variables.s),
+                z: fv(&variables.z),
+                lp: data.P.nnz() == 0,
+                ok: is_success,
+            });
+        }
         is_success
     }
 }
